@@ -9,7 +9,7 @@ META = {
         "(2) detach, Drop, restart and the debuggee-exit / process-vanished paths un-patch breakpoints and clear watchpoints before ptrace::detach / SIGKILL / re-install; "
         "(3) all tracer stop reasons after which the debuggee is marked Exited hibernate the breakpoint registry the same way; "
         "(4) disable_all_breakpoints keeps exactly the user-visible kinds (EntryPoint, UserDefined) and drops internal ones."
-        " (5) shared with C01: pc rewind before any re-execution at a breakpoint, and the un-patch / single-step / re-patch discipline."
+        " (5) shared with C01: pc rewind before any re-execution at a breakpoint, and the un-patch / single-step / re-patch discipline; the patch and un-patch are read-modify-writes of exactly one byte at the breakpoint address, every removal from the active map un-patches, a replaced breakpoint is un-patched before its successor is patched."
     ),
     "not_decided": "equality of the debuggee's output/exit status with a native run; byte-level memory image at every prompt (needs execution)",
     "assumptions": ["unwind (panic) edges ignored", "a closure passed to an iterator adaptor is executed at that call"],
@@ -291,6 +291,12 @@ def run(ck):
     from rules import C01
     C01.rule_rewind(ck)
     C01.rule_stepoff(ck)
+    # "the only bytes that differ are the breakpoints": the patch is a read-modify-write of exactly one byte, the
+    # un-patch puts exactly that byte back into a fresh read (neighbouring patches survive), every removal un-patches,
+    # and a replaced breakpoint is un-patched before its successor saves the byte (all shared with C01)
+    C01.rule_bits(ck)
+    C01.rule_removal(ck)
+    C01.rule_replace_order(ck)
     rule_temp_pairs(ck)
     rule_teardown(ck)
     rule_exit_siblings(ck)
